@@ -887,7 +887,12 @@ func (ex *Exec) timeCall(full string, fn *ssa.Function, args []Value, fr *Frame,
 func (ex *Exec) ioCall(full string, fn *ssa.Function, args []Value, fr *Frame, pos token.Pos) (Value, bool) {
 	switch full {
 	case "bufio.NewWriter":
-		return args[0], true
+		// pass-through: the buffered writer forwards every write to its underlying writer at once
+		return ex.nativePtr("bufio", "Writer", args[0]), true
+	case "(*bufio.Writer).Flush":
+		return IfaceV{}, true
+	case "(*bufio.Writer).Write", "(*bufio.Writer).WriteString":
+		panic(unsupported{full})
 	}
 	return nil, false
 }
